@@ -6,7 +6,8 @@ Driver for C03 (same line protocol and model as C02: harness/src/bin/c02.rs, Rre
   drv_c03 model   : case        ↦ observation line predicted by the model
   drv_c03 oracle  : case | obs  ↦ `ok <tags>` / `fail <clause>@<op>`: C03.countersOk on
                     GruleExecutionResult + callback count, C03.fixpointOk on the final facts (every rule
-                    re-evaluated by the reference evaluator) whenever cycle_count < max_cycles, and the C02 clauses.
+                    re-evaluated by the reference evaluator) whenever cycle_count < max_cycles, "the pass before an early
+                    return fired nothing" (the firings are at most cycle_count - 1 position-increasing runs), and the C02 clauses.
 A case is non-trivial for C03 when some execute made at least 3 passes or ended at the bound.
 -/
 open Proto C02 C02.Wire
